@@ -9,7 +9,13 @@ VERIF = Path(__file__).resolve().parent.parent
 sys.path.insert(0, str(VERIF))
 
 NA = {
-    "C18": "exception-freedom and bounded work over all seeds are run-time quantities; no sound static bound is in reach (probabilistically bounded recursion, emptiness of random.choice pools and None-dereferences need value reasoning) - see DESIGN.md section 5",
+    "C18": ("exception-freedom and termination over all seeds are run-time quantities with no sound static bound in reach: the "
+            "generator's recursion is only probabilistically bounded (receivers, array elements and the fallback of gen_variable "
+            "recurse through generate_expr without a depth increment, so the natural structural clause - every call-graph cycle "
+            "through generate_expr passes an increment - is false on the unchanged tree), and emptiness of random.choice pools "
+            "and None-dereferences need value reasoning (a literal-None lint gave one true and two false reports out of three). "
+            "Reconsidered twice (DESIGN.md sections 5 and 14); the four C18 changes written by a sub-agent are kept under "
+            "seeded/C18-* for the record, one of them is reported by C01-R11 because it edits a condition C01 decides"),
 }
 PENDING = "checker for this property is designed (DESIGN.md section 2) but not yet implemented in this commit; not claimed until it is"
 
